@@ -264,6 +264,54 @@ package keeper
 //@   invariant lastNamed($pName[owner], vestingPoolName, \i) < 0 ==> vestingPool == nil
 //@   invariant lastNamed($pName[owner], vestingPoolName, \i) >= -1 && lastNamed($pName[owner], vestingPoolName, \i) < \i
 
+//@ // ---- C09: the remaining account-creating paths ----
+//@ func (k Keeper) CreateVestingAccount(ctx, fromAddress, toAddress, amount, startTime, endTime) (err)
+//@   modifies $accTag, $accNum, $accSeq, $accPub, $accOV, $accDF, $accDV, $accStart, $accEnd, $accNextNum, $evCount, $evTag, $evRef, $bal
+//@   ensures existingAccountsUntouched()
+//@   ensures err == nil ==> old($accTag[fromBech32(toAddress)]) == 0 && isNewCVA(fromBech32(toAddress), amount, startTime, endTime)
+//@   // exactly the given coins move from the sender to the new account
+//@   ensures err == nil && fromBech32(fromAddress) != fromBech32(toAddress) ==>
+//@     (forall d: str :: {$bal[fromBech32(toAddress)][d]} $bal[fromBech32(toAddress)][d] == old($bal[fromBech32(toAddress)][d]) + amount[d])
+//@     && (forall d: str :: {$bal[fromBech32(fromAddress)][d]} $bal[fromBech32(fromAddress)][d] == old($bal[fromBech32(fromAddress)][d]) - amount[d])
+//@   ensures forall a: str :: {$bal[a]} a != fromBech32(fromAddress) && a != fromBech32(toAddress) ==> $bal[a] == old($bal[a])
+//@   prop C09 C08
+//@
+//@ // the sender's own vesting account: only its OriginalVesting shrinks
+//@ func (k Keeper) UnlockUnbondedContinuousVestingAccountCoins(ctx, ownerAddress, amountToUnlock) (acc, err)
+//@   modifies $accTag, $accNum, $accSeq, $accPub, $accOV, $accDF, $accDV, $accStart, $accEnd
+//@   ensures otherAccountsUnchanged(ownerAddress)
+//@   ensures err != nil ==> allAccountsUnchanged()
+//@   ensures err == nil ==> acc != nil && old($accTag[ownerAddress]) == accType("cva") && $accTag[ownerAddress] == accType("cva")
+//@     && $accNum[ownerAddress] == old($accNum[ownerAddress]) && $accSeq[ownerAddress] == old($accSeq[ownerAddress]) && $accPub[ownerAddress] == old($accPub[ownerAddress])
+//@     && $accStart[ownerAddress] == old($accStart[ownerAddress]) && $accEnd[ownerAddress] == old($accEnd[ownerAddress])
+//@     && $accDF[ownerAddress] == old($accDF[ownerAddress]) && $accDV[ownerAddress] == old($accDV[ownerAddress])
+//@     && (forall d: str :: {$accOV[ownerAddress][d]} $accOV[ownerAddress][d] <= old($accOV[ownerAddress][d]))
+//@     && acc.StartTime == $accStart[ownerAddress] && acc.BaseVestingAccount != nil && acc.BaseVestingAccount.EndTime == $accEnd[ownerAddress]
+//@   prop C09 C07
+//@ loop Keeper.UnlockUnbondedContinuousVestingAccountCoins#1
+//@   invariant vestingAcc != nil && vestingAcc.BaseVestingAccount != nil && vestingAcc.BaseVestingAccount.BaseAccount != nil
+//@   invariant vestingAcc.StartTime == $accStart[ownerAddress] && vestingAcc.BaseVestingAccount.EndTime == $accEnd[ownerAddress]
+//@   invariant vestingAcc.BaseVestingAccount.DelegatedFree == $accDF[ownerAddress] && vestingAcc.BaseVestingAccount.DelegatedVesting == $accDV[ownerAddress]
+//@   invariant vestingAcc.BaseVestingAccount.BaseAccount.AccountNumber == $accNum[ownerAddress] && vestingAcc.BaseVestingAccount.BaseAccount.Sequence == $accSeq[ownerAddress]
+//@   invariant vestingAcc.BaseVestingAccount.BaseAccount.PubKey == $accPub[ownerAddress] && fromBech32(vestingAcc.BaseVestingAccount.BaseAccount.Address) == ownerAddress
+//@   invariant forall d: str :: {vestingAcc.BaseVestingAccount.OriginalVesting[d]} vestingAcc.BaseVestingAccount.OriginalVesting[d] <= $accOV[ownerAddress][d]
+//@
+//@ func (k msgServer) splitVestingCoins(ctx, from, toAddress, amount) (err)
+//@   modifies $accTag, $accNum, $accSeq, $accPub, $accOV, $accDF, $accDV, $accStart, $accEnd, $accNextNum, $evCount, $evTag, $evRef, $bal
+//@   modifies $trFound, $trGenesis, $trFromGenesisPool, $trFromGenesisAccount
+//@   // C09: the recipient had no account; the only existing account that changes is the sender's, and only by a smaller OriginalVesting
+//@   ensures err == nil ==> old($accTag[toAddress]) == 0
+//@   ensures forall a: str :: {$accTag[a]} old($accTag[a]) != 0 && a != from ==>
+//@     $accTag[a] == old($accTag[a]) && $accNum[a] == old($accNum[a]) && $accSeq[a] == old($accSeq[a]) && $accPub[a] == old($accPub[a])
+//@     && $accOV[a] == old($accOV[a]) && $accDF[a] == old($accDF[a]) && $accDV[a] == old($accDV[a]) && $accStart[a] == old($accStart[a]) && $accEnd[a] == old($accEnd[a])
+//@   ensures old($accTag[from]) != 0 ==> $accTag[from] == old($accTag[from]) && $accNum[from] == old($accNum[from]) && $accSeq[from] == old($accSeq[from])
+//@     && $accPub[from] == old($accPub[from]) && $accStart[from] == old($accStart[from]) && $accEnd[from] == old($accEnd[from])
+//@     && $accDF[from] == old($accDF[from]) && $accDV[from] == old($accDV[from])
+//@     && (forall d: str :: {$accOV[from][d]} $accOV[from][d] <= old($accOV[from][d]))
+//@   // C07 (structural part): the recipient is a new continuous vesting account holding `amount`, same end, start = max(now, sender start)
+//@   ensures err == nil && from != toAddress ==> isNewCVA(toAddress, amount, max(fdiv($blockTime, 1000000000), old($accStart[from])), old($accEnd[from]))
+//@   prop C09 C07
+
 //@ // ---- C13: only governance changes the vesting denomination, and only while no pool exists ----
 //@ spec func vpKey() str = global("types.ParamsKey")
 //@ pred noPools() = forall o: str :: {$pFound[o]} !$pFound[o]
